@@ -77,25 +77,24 @@ Theorem C03_number_octal_2p63_refuted : exists s, num_model s <> num_spec s.
 Proof. exact octal_2p63_refuted. Qed.
 Print Assumptions C03_number_octal_2p63_refuted.
 
-(* Strings: otto's parseStringLiteral with its three listed deviations switched off
-   computes the SV of 7.8.4 / B.1.2 for EVERY string-literal body (all escapes, line
-   continuations, octal escapes): nothing else separates it from ES5 *)
+(* Strings: otto's parseStringLiteral (as of /repo 96a7b64) computes the SV of 7.8.4 /
+   B.1.2 for EVERY string-literal body whose value holds no surrogate code unit: all
+   escapes, octal escapes of every length, every LineContinuation (LF, CR, CRLF, LS, PS) *)
 Theorem C03_string_literal_value : forall n s v,
-  sv_spec n s = Some v -> sv_gen true true true n s = Some v.
-Proof. exact sv_repaired_is_spec. Qed.
+  sv_spec n s = Some v -> Forall nonsurr v -> sv_model n s = Some v.
+Proof. exact sv_model_is_spec. Qed.
 Print Assumptions C03_string_literal_value.
+
+(* and with the one remaining deviation (WriteRune of a surrogate escape) switched off, for
+   every body at all: nothing else separates it from ES5 *)
+Theorem C03_string_literal_value_modulo_surrogates : forall n s v,
+  sv_spec n s = Some v -> sv_gen true n s = Some v.
+Proof. exact sv_repaired_is_spec. Qed.
+Print Assumptions C03_string_literal_value_modulo_surrogates.
 
 Theorem C03_string_surrogate_escape_refuted : exists s, sv sv_model s <> sv sv_spec s.
 Proof. exact surrogate_escape_refuted. Qed.
 Print Assumptions C03_string_surrogate_escape_refuted.
-
-Theorem C03_string_octal_escape_refuted : exists s, sv sv_model s <> sv sv_spec s.
-Proof. exact octal_escape_refuted. Qed.
-Print Assumptions C03_string_octal_escape_refuted.
-
-Theorem C03_string_lsps_continuation_refuted : exists s, sv sv_model s <> sv sv_spec s.
-Proof. exact lsps_continuation_refuted. Qed.
-Print Assumptions C03_string_lsps_continuation_refuted.
 
 (* non-vacuity: a tree that meets the hypotheses and exercises every construct *)
 Example C03_roundtrip_hyp_met :
@@ -117,9 +116,20 @@ Example C03_number_hyp_met :   (* 0x7fffffffffffffff, 0.1 *)
   num_in_range [48;120;55;102;102;102;102;102;102;102;102;102;102;102;102;102;102;102]%Z = true /\
   num_spec [48;46;49]%Z = Some 4591870180066957722%Z.
 Proof. vm_compute. auto. Qed.
+(* instances in the regions repaired by /repo 96a7b64: "\400" "\777", backslash + LS / PS *)
+Example C03_string_octal_escape_value :
+  sv sv_model [92;52;48;48]%Z = Some [32;48]%Z /\ sv sv_model [92;55;55;55]%Z = Some [63;55]%Z.
+Proof. exact octal_escape_value. Qed.
+Example C03_string_lsps_continuation_value :
+  sv sv_model [97;92;8232;98]%Z = Some [97;98]%Z /\ sv sv_model [92;8233]%Z = Some []%Z.
+Proof. exact lsps_continuation_value. Qed.
 Example C03_string_hyp_met :   (* a\x41\u0042\103\0\<LF>\q *)
   sv sv_spec [97;92;120;52;49;92;117;48;48;52;50;92;49;48;51;92;48;92;10;92;113]%Z = Some [97;65;66;67;0;113]%Z.
 Proof. vm_compute. reflexivity. Qed.
+Example C03_string_guard_met :
+  Forall nonsurr [97;65;66;67;0;113]%Z /\
+  sv sv_model [97;92;120;52;49;92;117;48;48;52;50;92;49;48;51;92;48;92;10;92;113]%Z = Some [97;65;66;67;0;113]%Z.
+Proof. split; [repeat constructor; vm_compute; auto|vm_compute; reflexivity]. Qed.
 (* the no-in flag after /repo 18fccf6 (ES5 11.12): inside a for initialiser the middle
    operand of ?: takes `in`, the last operand still leaves it to the for-in header *)
 Example C03_noin_conditional_model :
